@@ -261,7 +261,7 @@ def main():
     except ImportError:
         print('MANIFEST.json written (jsonschema not available);', len(checks), 'claimed')
 
-HOOK_COMMITS = []
+HOOK_COMMITS = ['6844b2f']
 
 if __name__ == '__main__':
     sys.exit(main())
